@@ -97,6 +97,58 @@ CFG = dict(
 )
 
 
+def check_acct(ck, prog):
+    """Memory accounting of the threaded decoder: what is added to coder->mem_in_use when a worker gets a Block is
+    exactly what the worker subtracts when it finishes, and the per-thread amounts it subtracts are not touched by
+    the worker in between."""
+    ck.rule("C07-ACCT", "mem_in_use: amounts added for a Block equal the amounts the worker subtracts; the per-thread "
+                        "amounts are written by the main thread only")
+    workers = ("worker_decoder", "worker_enable_partial_update")
+    main = prog.fn("stream_decode_mt", FILE)
+    w = prog.fn("worker_decoder", FILE)
+    ck.saw_function(main)
+    ck.saw_function(w)
+    added = set()
+    for b, i, e in main.iter_elems():
+        for (l, r, op, node) in ex.writes(e):
+            if ex.field_key(l) == (CODER, "mem_in_use") and op == "+=":
+                added |= {x["f"] for x in ex.walk(r) if x.get("k") == "mem" and x.get("rec") == CODER}
+    subtracted = set()
+    for b, i, e in w.iter_elems():
+        for (l, r, op, node) in ex.writes(e):
+            if ex.field_key(l) == (CODER, "mem_in_use") and op == "-=":
+                subtracted |= {x["f"] for x in ex.walk(r) if x.get("k") == "mem" and x.get("rec") == THR}
+    # provenance of the per-thread amounts
+    prov = {}
+    for b, i, e in main.iter_elems():
+        for (l, r, op, node) in ex.writes(e):
+            fk = ex.field_key(l)
+            if fk and fk[0] == THR and fk[1] in subtracted and op == "=" and r is not None:
+                src = {x["f"] for x in ex.walk(r) if x.get("k") == "mem" and x.get("rec") == CODER}
+                if src:
+                    prov[fk[1]] = src
+    ok = bool(added) and bool(subtracted) and set().union(*prov.values()) == added if prov else False
+    ck.ob("C07-ACCT", "symmetric", ok and set(prov) == subtracted, common.where(main),
+          "stream_decode_mt adds %s to mem_in_use; worker_decoder subtracts %s, which were set from %s" % (
+              sorted(added), sorted(subtracted), {k: sorted(v) for k, v in sorted(prov.items())}),
+          key="ACCT:symmetric")
+    for fld in sorted(subtracted):
+        writers = []
+        for wn in workers:
+            g = prog.fn(wn, FILE)
+            for b, i, e in g.iter_elems():
+                for (l, r, op, node) in ex.writes(e):
+                    if ex.field_key(l) == (THR, fld):
+                        writers.append((wn, ex.line(node)))
+        ck.ob("C07-ACCT", "main-only:" + fld, not writers, common.where(w),
+              "thr->%s (subtracted from mem_in_use when the Block is done) is never written by a worker function" % fld
+              if not writers else
+              "%s() stores to thr->%s at line %s; the worker later subtracts that member from coder->mem_in_use, so the "
+              "amount added when the Block started is never given back and the decoder eventually refuses to start new "
+              "Blocks" % (writers[0][0], fld, writers[0][1]), key="ACCT:main-only:" + fld)
+    ck.floor("C07-ACCT", 3)
+
+
 def check_cve(ck, prog):
     ck.rule("C07-CVE", "worker_decoder frees thr->in, moves memory counters and returns the thread to the "
             "free list only when ret == LZMA_STREAM_END (or on the terminating THR_EXIT path)")
@@ -188,5 +240,6 @@ def run(ck):
         "memory of the direct-mode Block decoder, which is deliberately kept across re-initialisation"
     reinit.check_init_consistency(ck, prog, "C07-INITCONS", files={FILE})
     check_cve(ck, prog)
+    check_acct(ck, prog)
     ck.rule("C07-ERR", "pending error after drain; quiescent states entered only after the queue was empty")
     evaluate(ck, prog, "C07-ERR", TABLE, floor=3)
